@@ -75,6 +75,28 @@ CLAIMED = {
              "(deadlock freedom, lost wake-ups, liveness of free are not decided). Known finding K5 (detached pools are not awaited) is reported.",
         tech="lockset/typestate dataflow on the CFG with a thread-role table, loop-fragment path enumeration, dominance",
         ref="DESIGN.md §4 C06, A.9"),
+    "C13": dict(
+        text="Decision-table check of push_evt: all acyclic CFG paths are enumerated, boolean locals are copy-propagated, and each feasible path's "
+             "effects (enqueue / release / userdata / handler invocation / queue swap) are compared with the table written from the statement "
+             "(HIGH forces, batch timer forces, LOW never invokes, NORM invokes when the count reached batch.len, >= makes the default a tautology). "
+             "Plus guard rules: one priority bit (default NORM) before any source is created, descriptor sources only HIGH, fd sources forced HIGH, "
+             "internal timers registered with INTERNAL|HIGH and the user pointers push_evt recognises, setter ordering, reset of every batching field "
+             "on stop. Timer expiry and interleavings with setters are not decided.",
+        tech="path enumeration with copy propagation against a decision table (R-DECISION), guard/must-pass rules on CFG facts",
+        ref="DESIGN.md §4 C13"),
+    "C16": dict(
+        text="Static rules for stash/unstash: entry guards (live, same thread, RUNNING; HIGH-priority events refused before the enqueue; len>0), "
+             "induction-variable analysis of the move loop proving that exactly `len` events have been moved when its counted exit fires, oldest-first "
+             "iteration, reference taken before the stash entry is destroyed, returned value read before the handler runs, one delivery after the "
+             "loop, stash cleared by reset_module on every stopping path.",
+        tech="induction-variable / trip-count analysis of one natural loop + guard tables + must-pass",
+        ref="DESIGN.md §4 C16, A.7"),
+    "C17": dict(
+        text="Static rules for become/unbecome: who may touch the handler stack (one stack primitive per API), handler selection dataflow in "
+             "call_pubsub_cb (peek read once before the call, registration-time fallback under NULL, no re-read after the call), entry guards, "
+             "push of exactly the argument, 0/-EINVAL tied to the pop result on every path, stack cleared by reset_module on every stopping path.",
+        tech="who-calls query + reaching definitions + guard tables + path enumeration",
+        ref="DESIGN.md §4 C17"),
 }
 
 NOT_APPLICABLE = {
